@@ -6,8 +6,9 @@
    of polls the model may make (the theorems say how much is enough).
 
    `mem s (norm FINAL r)` = s is one of the requested states (default: the
-   final states); `clauses` = the oracle [truthful; timely; timeout;
-   justified; no_exception] that the harness evaluates on the traces of the
+   final states); `clauses p0` = the oracle [truthful; timely; timeout;
+   justified; no_exception] (p0 = first tick at which the call looks at the
+   entities; `timely` = all at once for a polling interval, and per entity) that the harness evaluates on the traces of the
    real code. *)
 From Coq Require Import ZArith List Bool Arith.
 From RP Require Import Gen.StatesTables Wait.Model Wait.Inst Wait.Oracle Wait.Proofs Wait.InstProofs.
@@ -86,7 +87,7 @@ Print Assumptions C15_task_wait_spins_is_forever.
 Theorem C15_task_wait_oracle :
   forall (r : req) (T term : option nat) (fuel : nat) (tr : ttraj),
     horizon [tr] + 2 <= fuel -> (forall t0, T = Some t0 -> t0 + 2 <= fuel) ->
-    clauses tstate_beq tfinal tvalue false (norm tfinal r) T term (Some [tr])
+    clauses tstate_beq tfinal tvalue 0 false (norm tfinal r) T term (Some [tr])
             (m_task_wait r T term fuel tr) = all_true.
 Proof. exact (entity_clauses tstate_beq tfinal tvalue t_beq_spec). Qed.
 Print Assumptions C15_task_wait_oracle.
@@ -134,21 +135,24 @@ Print Assumptions C15_pilot_wait_spins_is_forever.
 Theorem C15_pilot_wait_oracle :
   forall (r : req) (T term : option nat) (fuel : nat) (tr : ptraj),
     horizon [tr] + 2 <= fuel -> (forall t0, T = Some t0 -> t0 + 2 <= fuel) ->
-    clauses pstate_beq pfinal pvalue false (norm pfinal r) T term (Some [tr])
+    clauses pstate_beq pfinal pvalue 0 false (norm pfinal r) T term (Some [tr])
             (m_pilot_wait r T term fuel tr) = all_true.
 Proof. exact (entity_clauses pstate_beq pfinal pvalue p_beq_spec). Qed.
 Print Assumptions C15_pilot_wait_oracle.
 
 (* ---- TaskManager.wait_tasks ---------------------------------------------- *)
-(* If at some tick k >= 1 every awaited task (the uids named, or all tasks)
-   shows a requested or a final state, wait_tasks has returned by tick k,
-   and what it returns are the states the tasks show at the tick of the return
-   (a list in the order asked for, or the one state for a single uid). *)
+(* Per entity: if every awaited task (the uids named, or all tasks) HAS shown
+   a requested or a final state at some tick 1 <= j <= k -- each at its own
+   tick, it may have moved on to a later state since -- wait_tasks has returned
+   by tick k, and what it returns are the states the tasks show at the tick of
+   the return (a list in the order asked for, or the one state for a single
+   uid).  (wait_tasks first looks at the tasks at tick 1.) *)
 Theorem C15_wait_tasks_returns_on_requested_or_final :
   forall (r : req) (T term : option nat) (fuel : nat) (tab : ttable) (u : uidsel)
          (aw : list ttraj) (k : nat),
     awaited_tasks tab u = Some aw -> 1 <= k <= fuel ->
-    (forall tr, In tr aw -> tmem (at_ tr k) (norm tfinal r) || tfin (at_ tr k) = true) ->
+    (forall tr, In tr aw -> exists j, 1 <= j <= k /\
+        tmem (at_ tr j) (norm tfinal r) || tfin (at_ tr j) = true) ->
     exists v t, t <= k /\ m_wait_tasks r T term fuel tab u = Returned v t /\
                 ok_truthful tstate_beq (as_list u) aw (Returned v t) = true.
 Proof. exact (wait_tasks_returns_by tstate_beq tfinal tvalue t_beq_spec t_final_ne). Qed.
@@ -161,7 +165,7 @@ Theorem C15_wait_tasks_oracle :
   forall (r : req) (T term : option nat) (fuel : nat) (tab : ttable) (u : uidsel) (aw : list ttraj),
     awaited_tasks tab u = Some aw ->
     horizon aw + 2 <= fuel -> (forall t0, T = Some t0 -> t0 + 2 <= fuel) ->
-    clauses tstate_beq tfinal tvalue (as_list u) (norm tfinal r) T term (Some aw)
+    clauses tstate_beq tfinal tvalue 1 (as_list u) (norm tfinal r) T term (Some aw)
             (m_wait_tasks r T term fuel tab u) = all_true.
 Proof. exact (wait_tasks_clauses tstate_beq tfinal tvalue t_beq_spec t_final_top t_final_ne). Qed.
 Print Assumptions C15_wait_tasks_oracle.
@@ -173,14 +177,17 @@ Proof. exact (wait_tasks_unknown_uid tstate_beq tfinal tvalue t_final_ne). Qed.
 Print Assumptions C15_wait_tasks_unknown_uid.
 
 (* ---- PilotManager.wait_pilots -------------------------------------------- *)
-(* If at some tick k every awaited pilot (the uids named, or all pilots not
-   final at the time of the call) shows a requested or a final state,
-   wait_pilots has returned by tick k+1 with the pilots' actual states. *)
+(* Per entity: if every awaited pilot (the uids named, or all pilots not
+   final at the time of the call) HAS shown a requested or a final state at some
+   tick j <= k -- each at its own tick; a pilot seen in a requested transient
+   state stays accounted for when it moves on -- wait_pilots has returned by
+   tick k+1 with the pilots' actual states. *)
 Theorem C15_wait_pilots_returns_on_requested_or_final :
   forall (r : req) (T term : option nat) (fuel : nat) (tab : ptable) (u : uidsel)
          (aw : list ptraj) (k : nat),
     awaited_pilots pstate_beq pfinal tab u = Some aw -> S k <= fuel ->
-    (forall tr, In tr aw -> pmem (at_ tr k) (norm pfinal r) || pfin (at_ tr k) = true) ->
+    (forall tr, In tr aw -> exists j, j <= k /\
+        pmem (at_ tr j) (norm pfinal r) || pfin (at_ tr j) = true) ->
     exists v t, t <= S k /\ m_wait_pilots r T term fuel tab u = Returned v t /\
                 ok_truthful pstate_beq (as_list u) aw (Returned v t) = true.
 Proof. exact (wait_pilots_returns_by pstate_beq pfinal p_beq_spec). Qed.
@@ -190,7 +197,7 @@ Theorem C15_wait_pilots_oracle :
   forall (r : req) (T term : option nat) (fuel : nat) (tab : ptable) (u : uidsel) (aw : list ptraj),
     awaited_pilots pstate_beq pfinal tab u = Some aw ->
     horizon aw + 2 <= fuel -> (forall t0, T = Some t0 -> t0 + 2 <= fuel) ->
-    clauses pstate_beq pfinal pvalue (as_list u) (norm pfinal r) T term (Some aw)
+    clauses pstate_beq pfinal pvalue 0 (as_list u) (norm pfinal r) T term (Some aw)
             (m_wait_pilots r T term fuel tab u) = all_true.
 Proof. exact (wait_pilots_clauses pstate_beq pfinal pvalue p_beq_spec). Qed.
 Print Assumptions C15_wait_pilots_oracle.
@@ -214,5 +221,11 @@ Example C15_nonvacuous :
   m_wait_tasks RNone None None 10 [(1%Z, (T_NEW, [T_DONE])); (2%Z, (T_NEW, [T_NEW; T_NEW; T_FAILED]))] UAll
     = Returned (VList [T_DONE; T_FAILED]) 3 /\
   m_wait_pilots (ROne P_PMGR_ACTIVE) None None 10
-    [(1%Z, (P_NEW, [P_PMGR_ACTIVE])); (2%Z, (P_DONE, []))] UAll = Returned (VList [P_PMGR_ACTIVE]) 2.
+    [(1%Z, (P_NEW, [P_PMGR_ACTIVE])); (2%Z, (P_DONE, []))] UAll = Returned (VList [P_PMGR_ACTIVE]) 2 /\
+  (* pilot 1 passes through the requested state at tick 1 and has moved on
+     when pilot 2 shows it at tick 3: the wait returns at tick 4 *)
+  m_wait_pilots (ROne P_PMGR_ACTIVE_PENDING) None None 12
+    [(1%Z, (P_NEW, [P_PMGR_ACTIVE_PENDING; P_PMGR_ACTIVE]));
+     (2%Z, (P_NEW, [P_NEW; P_NEW; P_PMGR_ACTIVE_PENDING]))] UAll
+    = Returned (VList [P_PMGR_ACTIVE; P_PMGR_ACTIVE_PENDING]) 4.
 Proof. vm_compute. repeat split. Qed.
